@@ -73,7 +73,7 @@ pub open spec fn stable(w0: World, w1: World) -> bool {
     &&& trace(w1) == trace(w0)
     &&& ticket(w1) == ticket(w0)
     &&& (done_tx_gone(w0) ==> done_tx_gone(w1))
-    &&& w1.n == w0.n
+    &&& w1.n == w0.n && w1.es == w0.es
 }
 
 impl<'a> VxFuture for ReadFut<'a, Option<Sender<NodeIndex<FnIdInner>>>> {
@@ -104,7 +104,7 @@ impl<'a> VxFuture for ReadFut<'a, usize> {
 impl<'a> VxFuture for WriteFut<'a, usize> {
     type Out = WriteGuard<'a, usize>;
     open spec fn completes(&self, w0: World, w1: World, out: WriteGuard<'a, usize>) -> bool {
-        &&& trace(w1) == trace(w0) && w1.n == w0.n && (done_tx_gone(w0) ==> done_tx_gone(w1))
+        &&& trace(w1) == trace(w0) && w1.n == w0.n && w1.es == w0.es && (done_tx_gone(w0) ==> done_tx_gone(w1))
         //  holding a ticket, the counter is at least 1; taking the write lock to decrement uses the ticket up
         &&& (ticket(w0) ==> out.val() >= 1 && !ticket(w1))
         &&& (!ticket(w0) ==> !ticket(w1))
